@@ -1,0 +1,123 @@
+//! Registration points for an external deterministic simulator.
+//!
+//! Only compiled with `--cfg fontc_verif`. Nothing here has behaviour of its own:
+//! every function forwards to a function pointer that a simulator may install once
+//! per process, and is a no-op (or the identity) when none is installed.
+
+use std::{
+    fmt::Debug,
+    io::{Read, Write},
+    path::Path,
+    sync::OnceLock,
+};
+
+/// What a simulator can observe and influence.
+#[derive(Clone, Copy)]
+pub struct Hooks {
+    /// A context accessor is about to touch shared state; the callee may yield to its scheduler.
+    ///
+    /// `op` is one of `read`, `scan`, `write`. `id` is `None` for whole-map scans.
+    pub access: fn(op: &'static str, ty: &'static str, id: Option<&dyn Debug>),
+    /// Something noteworthy happened to an item: `miss`, `restored`, `nop-write`.
+    pub note: fn(what: &'static str, ty: &'static str, id: &dyn Debug),
+    /// An effective write to `id` just finished.
+    pub wrote: fn(ty: &'static str, id: &dyn Debug),
+    /// Should the value written for `id` be dropped from memory once persisted?
+    pub evict: fn(ty: &'static str, id: &dyn Debug) -> bool,
+    /// Should writes be read back and compared?
+    pub readback_enabled: fn() -> bool,
+    /// What was persisted for `id` was read back; `equal` says whether it compared equal
+    /// to the value in memory, when that could be determined.
+    pub readback: fn(ty: &'static str, id: &dyn Debug, equal: Option<bool>),
+    /// A writer for the persisted form of `id` at `path` was opened.
+    pub wrap_writer: fn(id: &dyn Debug, path: &Path, inner: Box<dyn Write>) -> Box<dyn Write>,
+    /// A reader for the persisted form of `id` at `path` was opened.
+    pub wrap_reader: fn(id: &dyn Debug, path: &Path, inner: Box<dyn Read>) -> Box<dyn Read>,
+    /// Scheduler lifecycle event (`launch`, `popped`, `exec-done`, `decremented`, ...).
+    pub event: fn(what: &'static str, id: &dyn Debug, detail: Option<&dyn Debug>),
+    /// Called as the first thing inside the guarded execution of a job.
+    ///
+    /// May panic; may return a message, in which case the job fails with it.
+    pub pre_exec: fn(id: &dyn Debug) -> Option<String>,
+    /// About to perform the named file system step of writing the final font.
+    ///
+    /// May return an error to be reported in place of performing the step.
+    pub io_step: fn(what: &'static str, path: &Path) -> Option<std::io::Error>,
+}
+
+static HOOKS: OnceLock<Hooks> = OnceLock::new();
+
+/// Install hooks; returns false if some were already installed.
+pub fn install(hooks: Hooks) -> bool {
+    HOOKS.set(hooks).is_ok()
+}
+
+#[inline]
+pub fn access(op: &'static str, ty: &'static str, id: Option<&dyn Debug>) {
+    if let Some(h) = HOOKS.get() {
+        (h.access)(op, ty, id)
+    }
+}
+
+#[inline]
+pub fn note(what: &'static str, ty: &'static str, id: &dyn Debug) {
+    if let Some(h) = HOOKS.get() {
+        (h.note)(what, ty, id)
+    }
+}
+
+#[inline]
+pub fn wrote(ty: &'static str, id: &dyn Debug) {
+    if let Some(h) = HOOKS.get() {
+        (h.wrote)(ty, id)
+    }
+}
+
+#[inline]
+pub fn evict(ty: &'static str, id: &dyn Debug) -> bool {
+    HOOKS.get().map(|h| (h.evict)(ty, id)).unwrap_or(false)
+}
+
+#[inline]
+pub fn readback_enabled() -> bool {
+    HOOKS
+        .get()
+        .map(|h| (h.readback_enabled)())
+        .unwrap_or(false)
+}
+
+#[inline]
+pub fn readback(ty: &'static str, id: &dyn Debug, equal: Option<bool>) {
+    if let Some(h) = HOOKS.get() {
+        (h.readback)(ty, id, equal)
+    }
+}
+
+pub fn wrap_writer(id: &dyn Debug, path: &Path, inner: Box<dyn Write>) -> Box<dyn Write> {
+    match HOOKS.get() {
+        Some(h) => (h.wrap_writer)(id, path, inner),
+        None => inner,
+    }
+}
+
+pub fn wrap_reader(id: &dyn Debug, path: &Path, inner: Box<dyn Read>) -> Box<dyn Read> {
+    match HOOKS.get() {
+        Some(h) => (h.wrap_reader)(id, path, inner),
+        None => inner,
+    }
+}
+
+#[inline]
+pub fn event(what: &'static str, id: &dyn Debug, detail: Option<&dyn Debug>) {
+    if let Some(h) = HOOKS.get() {
+        (h.event)(what, id, detail)
+    }
+}
+
+pub fn pre_exec(id: &dyn Debug) -> Option<String> {
+    HOOKS.get().and_then(|h| (h.pre_exec)(id))
+}
+
+pub fn io_step(what: &'static str, path: &Path) -> Option<std::io::Error> {
+    HOOKS.get().and_then(|h| (h.io_step)(what, path))
+}
